@@ -632,7 +632,7 @@ func runC12Queue(c *Ctx) {
 	}
 	n, budget := 150, 8*time.Second
 	if c.Thorough {
-		n, budget = 4000, 150*time.Second
+		n, budget = 1200, 60*time.Second
 	}
 	t0 := time.Now()
 	reported := map[string]int{}
